@@ -325,6 +325,9 @@ void ObjectFile::refresh(bool isFirstTime /* = false */)
 		
 		objectFile.unlock();
 
+		// See below: nothing was ever written to this object
+		if (isFirstTime) valid = false;
+
 		return;
 	}
 
@@ -514,7 +517,9 @@ void ObjectFile::refresh(bool isFirstTime /* = false */)
 
 	objectFile.unlock();
 
-	valid = true;
+	// An object file without any attribute is what an interrupted object
+	// creation leaves behind; do not present it as an object
+	valid = !attributes.empty();
 }
 
 // Common write part in store()
